@@ -4,12 +4,15 @@ use kvarn::prelude::*;
 use std::collections::BTreeMap;
 
 /// the fixture tree: path relative to `root` -> marker content. host.path = root/site.
-const FILES: [(&str, &str); 14] = [
+const FILES: [(&str, &str); 16] = [
     ("secret.txt", "SENTINEL-ROOT"),
     ("site/secret.html", "SENTINEL-SITE-HTML"),
     ("site/index.html", "SENTINEL-SITE-INDEX"),
     ("site/secret2.txt", "SENTINEL-SITE"),
     ("site/public.txt", "SENTINEL-BESIDE"),
+    // names a lossy decoding of an invalid escape would produce (U+FFFD): outside the public directory all the same
+    ("site/secret-\u{fffd}.txt", "SENTINEL-LOSSY"),
+    ("site/\u{fffd}", "SENTINEL-LOSSY-BARE"),
     ("site/public/index.html", "PUB-INDEX"),
     ("site/public/a/index.html", "PUB-A-INDEX"),
     ("site/public/a/b.html", "PUB-AB"),
@@ -269,7 +272,10 @@ impl Group for Read {
             "/a/b.html%00", "/..%00/", "/public.txt", "/%2e%2e/public.txt", "/a/b%2ehtml", "/c.txt", "/index.html", "/.%2e/secret2.txt", "/a/..%2f..%2fsecret2.txt", "/%252e%252e/secret2.txt",
             // doubly encoded dot segments on targets that the `/`-and-`.` expanding Prime rewrites (a rewrite must not decode)
             "/%252e%252e/secret.", "/%252e%252e/", "/%252e%252e/secret2.txt%3F/", "/%252e%252e/secret2.txt%3F.", "/%252E%252E%252Fsecret.", "/a/%252e%252e/%252e%252e/secret.",
-            "/%252e%252e%252f", "/a%252f..%252f..%252fsecret."];
+            "/%252e%252e%252f", "/a%252f..%252f..%252fsecret.",
+            // every `./` encoded and an escape that is not UTF-8 next to it: the check sees the raw string (the decoding
+            // fell back), so whatever forms the file path must not decode more leniently than the check did
+            "/%2e%2e%2fsecret-%ff.txt", "/%2E%2E%2Fsecret-%c0.txt", "/%2e%2e%2f%ff", "/a%2f%2e%2e%2f%2e%2e%2fsecret-%fe.txt", "/%2e%2e%2fsecret-%ff.txt%3F"];
         for t in fixed {
             for m in ["GET", "HEAD", "POST"] {
                 for h in 0..4 {
